@@ -163,6 +163,13 @@ DIFFERENT += [
     ('flag reset in a loop dropped','def f(xs):\n    p = True\n    for x in xs:\n        if p:\n            g(x)\n        p = False','def f(xs):\n    p = True\n    for x in xs:\n        if p:\n            g(x)'),
     ('literal assigned in a try body read after it','def f():\n    v = 0\n    try:\n        risky()\n        v = 1\n    except E:\n        pass\n    return v','def f():\n    try:\n        risky()\n    except E:\n        pass\n    return 0'),
     ('literal assigned in a loop read after it','def f(xs):\n    n = 0\n    for x in xs:\n        if x:\n            n = 1\n    return n','def f(xs):\n    for x in xs:\n        pass\n    return 0'),
+    ('test re-read as a value after the assignment that changes it',
+     'def f(self, x):\n    if x.a == 1:\n        x.a = 2\n        self.p = x.a == 1\n    else:\n        self.p = x.a == 1',
+     'def f(self, x):\n    if x.a == 1:\n        x.a = 2\n        self.p = True\n    else:\n        self.p = False'),
+    ('flag local that is not a truth value',
+     'def f(self, x):\n    b = x.a\n    if b:\n        self.p = b\n    else:\n        self.p = b',
+     'def f(self, x):\n    if x.a:\n        self.p = True\n    else:\n        self.p = False'),
+    ('attribute default then an override that can fail', 'def f(self, t):\n    self.m = None\n    if t:\n        self.m = M()\n    self.n = 1', 'def f(self, t):\n    self.m = M() if t else None\n    self.n = 1'),
 ]
 
 SAME = [
@@ -175,7 +182,7 @@ SAME = [
     ('else after raising handlers', 'def f(m, r):\n    try:\n        v = m[r]\n    except KeyError:\n        raise E(r)\n    else:\n        return v',
      'def f(m, r):\n    try:\n        v = m[r]\n    except KeyError:\n        raise E(r)\n    return v'),
     ('enumerate over a stable list', 'def f(self, out):\n    for i in range(len(self.xs)):\n        out[i] = self.xs[i]',
-     'def f(self, out):\n    for i, e in enumerate(self.xs):\n        out[i] = e'),
+     'def f(self, out):\n    for i, e in enumerate(self.xs):\n        out[i] = e', {'seqs': [('self', 'xs')]}),
     ('loop to comprehension', 'def f(xs):\n    out = []\n    for x in xs:\n        if x.ok:\n            out.append(x.v)\n    return out',
      'def f(xs):\n    return [x.v for x in xs if x.ok]'),
     ('return placed after the if or in its branches', 'def f(self, c, b):\n    if c:\n        b = b[:-1]\n    return b',
@@ -192,7 +199,7 @@ SAME = [
     ('reassociated product', 'def f(b, n, c):\n    return len(b) - 4 * n * len(c)', 'def f(b, n, c):\n    return len(b) - len(c) * n * 4'),
     ('independent tests nested the other way', 'def f(a, b):\n    if a.x:\n        if b.y:\n            return 1\n        return 2\n    if b.y:\n        return 3\n    return 4', 'def f(a, b):\n    if b.y:\n        if a.x:\n            return 1\n        return 3\n    if a.x:\n        return 2\n    return 4'),
     ('default literal and early return', "def f(self):\n    r = b''\n    if self.h:\n        r = self.g()\n    return r", "def f(self):\n    if not self.h:\n        return b''\n    return self.g()"),
-    ('attribute default then override', 'def f(self, t):\n    self.m = None\n    if t:\n        self.m = M()\n    self.n = 1', 'def f(self, t):\n    self.m = M() if t else None\n    self.n = 1'),
+    ('attribute default then override', 'def f(self, t):\n    self.m = None\n    if t:\n        self.m = t.x\n    self.n = 1', 'def f(self, t):\n    self.m = t.x if t else None\n    self.n = 1'),
     ('percent tuple is an f-string', "def f(a, b):\n    return 'x %s y %r' % (a, b)", "def f(a, b):\n    return f'x {a!s} y {b!r}'"),
     ('independent state updates in another order', 'def f(self, n):\n    self._in = True\n    self._can.append(True)\n    self._stk.append(n)', 'def f(self, n):\n    self._stk.append(n)\n    self._in = True\n    self._can.append(True)'),
     ('flag set from a tested local', 'def f(self):\n    if not self.h():\n        self.t = 0\n        self.s = True\n    else:\n        self.s = False\n    self.p = 1', 'def f(self):\n    b = self.h()\n    if not b:\n        self.t = 0\n    self.s = not b\n    self.p = 1'),
@@ -204,8 +211,26 @@ SAME = [
     ('get on a module-level dict display', 'def f(k):\n    return D.get(k, 0)', 'def f(k):\n    if k in D:\n        return D[k]\n    return 0', {'dicts': ['D']}),
     ('method of a chosen object', 'def f(c, v):\n    return (A if c else B).match(v)', 'def f(c, v):\n    return A.match(v) if c else B.match(v)'),
     ('percent with a decoded operand', "def f(b):\n    return 'x %s' % b.decode('ascii')", "def f(b):\n    return f\"x {b.decode('ascii')}\""),
-    ('extend only reads its argument', 'def f(out, p):\n    n = len(p)\n    out.extend(p)\n    return n', 'def f(out, p):\n    out.extend(p)\n    return len(p)'),
+    ('extend only reads its argument', 'def f(self, out):\n    n = len(self.p)\n    out.extend(self.p)\n    return n', 'def f(self, out):\n    out.extend(self.p)\n    return len(self.p)'),
     ('annotated assignment in a function', 'def f(self, v):\n    self.n: int = int(v)', 'def f(self, v):\n    self.n = int(v)'),
+    ('flag taken once and reused after the branch',
+     'def f(self, xs):\n    prev = True\n    for x in xs:\n        if not prev:\n            self.n += 1\n        if x.a == 1:\n            yield x\n            prev = True\n        else:\n            prev = x.a == 1',
+     'def f(self, xs):\n    prev = True\n    for x in xs:\n        last = x.a == 1\n        if not prev:\n            self.n += 1\n        if last:\n            yield x\n        prev = last'),
+]
+
+
+# whole-module pairs for gate.apply(current, reference): the named function must NOT be taken as equivalent
+GATE_DIFFERENT = [
+    ('module global rebound by a callee between the read and the use',
+     'COUNT = 0\ndef bump():\n    global COUNT\n    COUNT += 1\ndef f():\n    bump()\n    return COUNT\n',
+     'COUNT = 0\ndef bump():\n    global COUNT\n    COUNT += 1\ndef f():\n    t = COUNT\n    bump()\n    return t\n', 'f'),
+    ('helper of another class pasted into a method that calls its own',
+     'class A:\n    def _reset(self):\n        self.closed = True\nclass C:\n    def _reset(self):\n        self.n = 0\n    def f(self):\n        self._reset()\n',
+     'class C:\n    def _reset(self):\n        self.n = 0\n    def f(self):\n        self.closed = True\n', 'C.f'),
+    ('class-level default None of an attribute tested for emptiness',
+     'class K:\n    rows = None\n    def load(self):\n        self.rows = []\n    def empty(self):\n        return len(self.rows) == 0\n',
+     'class K:\n    rows = None\n    def load(self):\n        self.rows = []\n    def empty(self):\n        return not self.rows\n', 'K.empty'),
+    ('async def against def', 'class K:\n    async def f(self):\n        return 7\n', 'class K:\n    def f(self):\n        return 7\n', 'K.f'),
 ]
 
 
@@ -215,7 +240,7 @@ def _canon(src, extra, side):
     if hs:
         h = ast.parse(hs).body[0]
         helpers = {h.name: (h, bool(h.args.args) and h.args.args[0].arg == 'self' or any(isinstance(d, ast.Name) and d.id == 'staticmethod' for d in h.decorator_list))}
-    return equiv.canonical(ast.parse(src).body[0], helpers, dicts=extra.get('dicts'))
+    return equiv.canonical(ast.parse(src).body[0], helpers, dicts=extra.get('dicts'), ctx={'seqs': extra.get('seqs', ())})
 
 
 def run():
@@ -235,9 +260,27 @@ def run():
             cb = _canon(b, extra, 'b')
             if ca is None or ca != cb:
                 bad.append(f'not recognised as equivalent: {what}')
+        from . import gate
+        for what, cur, ref, q in GATE_DIFFERENT:
+            if q in gate.apply(ast.parse(cur), ast.parse(ref), lambda t: None):
+                bad.append(f'gate takes as equivalent: {what}')
+        # the red-team corpus (DESIGN 8.9): pairs with a demonstrated behavioural difference that were once identified
+        import importlib.util
+        import os
+        rt = os.path.join(os.path.dirname(os.path.dirname(os.path.abspath(__file__))), 'redteam', 'check.py')
+        if os.path.exists(rt):
+            spec = importlib.util.spec_from_file_location('redteam_check', rt)
+            m = importlib.util.module_from_spec(spec)
+            spec.loader.exec_module(m)
+            rbad, waived, total = m.unexpected()
+            bad.extend(f'red-team pair taken as equivalent again: [{n}] {t}' for n, t in rbad)
+            REDTEAM[:] = [total, waived]
     finally:
         equiv.REPO_DEFINED[0] = saved
-    return bad, len(DIFFERENT), len(SAME)
+    return bad, len(DIFFERENT) + len(GATE_DIFFERENT) + (REDTEAM[0] - REDTEAM[1]), len(SAME)
+
+
+REDTEAM = [0, 0]
 
 
 if __name__ == '__main__':
